@@ -820,6 +820,9 @@ let s8_case (c : case) : unit =
         impl_valid := (if names = "-" then [] else List.map op_of_rust (String.split_on_char ',' names));
         if !impl_valid <> model_valid then
           diff "valid-set" (Printf.sprintf "impl=%s model=%s stack=%s" names (String.concat "," (List.map cp_name model_valid)) (string_of_stack s0.stk))
+    | "NONDET" :: rest ->
+        Printf.printf "PROP %s C07 fail the candidate set of one and the same hand-built state differs between two constructions of that state (hash-container iteration order or addresses decide): %s\n"
+          c.id (String.concat " " rest)
     | "EMIT" :: op :: verdict :: rest ->
         let o = op_of_rust op in
         (* only steps one of the two sides would really take: an opcode neither guard admits is never emitted in this state *)
